@@ -76,7 +76,14 @@ func (v val) judge(target any) string {
 		return v.covers(v.v, target)
 	}
 	if !v.equal(v.v, target) {
-		return fmt.Sprintf("target now holds %s", clip(fmt.Sprintf("%v", target), 600))
+		d := ""
+		if v.diff != nil {
+			d = v.diff(v.v, target) + "; "
+		}
+		if v.large {
+			return d + "target differs"
+		}
+		return fmt.Sprintf("%starget now holds %s", d, clip(fmt.Sprintf("%v", target), 600))
 	}
 	return ""
 }
